@@ -121,6 +121,58 @@ type ZEmbLowerOut struct {
 	zcommonOut
 	B V1
 }
+
+// objects and plain structs with ten embedded (anonymous) fields
+type (
+	ZE0 struct{ A0 V0 }
+	ZE1 struct{ A1 V1 }
+	ZE2 struct{ A2 V2 }
+	ZE3 struct{ A3 V3 }
+	ZE4 struct{ A4 V0 }
+	ZE5 struct{ A5 V1 }
+	ZE6 struct{ A6 V2 }
+	ZE7 struct{ A7 V3 }
+	ZE8 struct{ A8 V0 }
+	ZE9 struct{ A9 V1 }
+)
+type ZEmb10 struct {
+	ZE0
+	ZE1
+	ZE2
+	ZE3
+	ZE4
+	ZE5
+	ZE6
+	ZE7
+	ZE8
+	ZE9
+}
+type ZEmb10In struct {
+	ZE0
+	ZE1
+	ZE2
+	ZE3
+	ZE4
+	ZE5
+	ZE6
+	ZE7
+	ZE8
+	ZE9
+	dig.In
+}
+type ZEmb10Out struct {
+	ZE0
+	ZE1
+	ZE2
+	ZE3
+	ZE4
+	ZE5
+	ZE6
+	ZE7
+	ZE8
+	ZE9
+	dig.Out
+}
 type ZNamedSlice []V0
 
 func (ZNamedSlice) M0() {}
@@ -150,6 +202,7 @@ var zooTypes = []reflect.Type{
 	reflect.TypeOf(ZEmbIfaceBeforeIn{}), reflect.TypeOf(ZEmbIfaceBeforeOut{}),
 	reflect.TypeOf(ZErrVal(0)), reflect.TypeOf(ZErrStruct{}), reflect.TypeOf(ZErrVal(0)), reflect.TypeOf(ZErrStruct{}),
 	reflect.TypeOf(ZEmbLowerIn{}), reflect.TypeOf(ZEmbLowerOut{}), reflect.TypeOf(ZEmbLowerIn{}), reflect.TypeOf(ZEmbLowerOut{}),
+	reflect.TypeOf(ZEmb10{}), reflect.TypeOf(ZEmb10In{}), reflect.TypeOf(ZEmb10Out{}), reflect.TypeOf(&ZEmb10{}),
 }
 
 var tagValues = map[string][]string{
